@@ -48,7 +48,7 @@ func genC13s(t *rapid.T) c13sScenario {
 		Filter:    rapid.SampledFrom([]string{"", "", "json|xml", "image"}).Draw(t, "filter"),
 		Updated:   rapid.Bool().Draw(t, "updated"),
 		CT:        rapid.SampledFrom([]string{"text/plain", "application/json", "image/png", "", "application/xml"}).Draw(t, "ct"),
-		AE:        rapid.SampledFrom([]string{"", "gzip", "br", "gzip, br", "deflate", "br, gzip"}).Draw(t, "ae"),
+		AE:        rapid.SampledFrom([]string{"", "gzip", "br", "gzip, br", "deflate", "br, gzip", "pack200-gzip, gzip", "x-br, br", "x-gzip"}).Draw(t, "ae"),
 		Cacheable: rapid.Bool().Draw(t, "cacheable"),
 		UpEnc:     rapid.SampledFrom([]string{"", "", "", "gzip"}).Draw(t, "upEnc"),
 	}
